@@ -79,7 +79,9 @@ macro_rules! prefix_str_mut {
             /// the value of the length bytes.
             pub unsafe fn new_unchecked(data: &'a mut [u8]) -> Self {
                 let type_length = std::mem::size_of::<$prefix_type>();
-                let length = (data.len().saturating_sub(type_length) as $prefix_type).to_le_bytes();
+                let length = <$prefix_type>::try_from(data.len().saturating_sub(type_length))
+                    .unwrap_or(<$prefix_type>::MAX)
+                    .to_le_bytes();
                 data[..type_length].copy_from_slice(&length);
                 Self::from_bytes_mut(data)
             }
